@@ -234,11 +234,40 @@ Definition write_soon (c : cfg) (ch : chan) (d : wdata) (ans : list answer) : wr
   | s => mkwritten ch1 None s
   end.
 
+(* ---- send_continue ---- *)
+
+(* b"HTTP/1.1 100 Continue\r\n\r\n" *)
+Definition continue_payload : bytes :=
+  [72;84;84;80;47;49;46;49;32;49;48;48;32;67;111;110;116;105;110;117;101;13;10;13;10]%N.
+
+(* send_continue(): self.outbufs[-1].append(payload) -- no rotation --, both counters += 25, then
+   _flush_exception(self._flush_some) unconditionally *)
+Definition send_continue (c : cfg) (ch : chan) (ans : list answer) : written :=
+  let bufs := outbufs ch in
+  match bufs with
+  | [] => mkwritten ch None IndexError
+  | _ :: _ =>
+    match last bufs (OB o_new) with
+    | RO _ => mkwritten ch None NotImplemented          (* ReadOnlyFileBasedBuffer.append *)
+    | OB o =>
+      let '(o', r) := o_append FNone (c_strbuf_limit c) (c_overflow c) o continue_payload in
+      match r with
+      | Exn e => mkwritten (mkchan (set_last bufs (OB o')) (total_outbufs_len ch) (current_outbuf_count ch)) None (BufRaised e)
+      | Ok _ =>
+        let ch1 := mkchan (set_last bufs (OB o')) (total_outbufs_len ch + lenZ continue_payload)
+                          (current_outbuf_count ch + lenZ continue_payload) in
+        let f := flush_some c ch1 ans in
+        mkwritten (f_chan f) (Some f) (match f_stop f with SockRaised => Done | s => s end)
+      end
+    end
+  end.
+
 (* ---- histories ---- *)
 
 Inductive cop :=
 | CWrite (d : wdata) (ans : list answer)   (* write_soon(d); the answers serve its internal flush *)
-| CFlush (ans : list answer).              (* _flush_some() from handle_write / send_continue / service *)
+| CFlush (ans : list answer)               (* _flush_some() from handle_write / service *)
+| CContinue (ans : list answer).           (* send_continue(); the answers serve its flush *)
 
 Record cstep_out := mkcout {
   s_wire : bytes;        (* bytes the socket accepted during the operation *)
@@ -255,6 +284,10 @@ Definition cstep (c : cfg) (ch : chan) (p : cop) : chan * cstep_out :=
   | CFlush ans =>
     let f := flush_some c ch ans in
     (f_chan f, mkcout (f_wire f) (f_stop f) (flush_result f))
+  | CContinue ans =>
+    let w := send_continue c ch ans in
+    (w_chan w, mkcout (match w_flush w with Some f => f_wire f | None => [] end) (w_stop w)
+                      (match w_flush w with Some f => flush_result f | None => false end))
   end.
 
 Fixpoint crun (c : cfg) (ch : chan) (ps : list cop) : chan * bytes :=
@@ -273,4 +306,5 @@ Definition written_by (p : cop) : bytes :=
   | CWrite (WFile rb) _ =>
       firstn (Z.to_nat (fb_remain rb)) (skipn (f_pos (fb_file rb)) (f_content (fb_file rb)))
   | CFlush _ => []
+  | CContinue _ => continue_payload
   end.
